@@ -6,10 +6,8 @@
  * What the extraction changes: the NAME main -> virt_main (so that the contract
  * can be attached to a forward declaration and the CBMC entry stays h_*). */
 #define GATE_VIRT 1
-#define GATE_COUNT_STDERR 1
 #include "gate_contracts.h"
 struct verif_gate __verif_gate;
-int __verif_stderr_msg;
 int __verif_vm_r; uint8_t __verif_top_tag; int64_t __verif_top_i64;   /* ghost inputs, never assigned */
 
 #define main virt_main
